@@ -743,6 +743,12 @@ variant("xtext-hex-helper",
 			}
 			out.WriteString(strings.ToUpper(strconv.FormatInt(int64(ch), 16)))""", """			// hexchar is "+" followed by exactly two hex digits
 			fmt.Fprintf(&out, "+%02X", ch)"""))
+variant("xtext-indexbyte-guard",
+  ("conn.go", """	if !strings.Contains(val, "+") {
+		return val, nil
+	}""", """	if strings.IndexByte(val, '+') < 0 {
+		return val, nil
+	}"""))
 if sys.argv[1:] == ['--export']:
     out = [{"id": "benign-" + n, "edits": [{"file": f, "old": o, "new": w} for f, o, w in V[n]]} for n in V]
     json.dump(out, open('/verif/liveness/benign.json', 'w'), indent=1)
